@@ -652,11 +652,15 @@ class Check:
             "coverage": cov, "assumptions": self.assumptions, "wall_s": round(time.time() - self.t0, 2),
             "violations": nviol,
         }
-        os.makedirs(os.path.join(ROOT, "evidence"), exist_ok=True)
-        tmp = os.path.join(ROOT, "evidence", f".{self.prop}.{os.getpid()}.tmp")
+        # evidence/<id>.json describes runs against /repo itself; a run pointed at another checkout (development:
+        # seeded changes, harmless rewrites) writes its evidence to a scratch directory instead
+        evdir = os.path.join(ROOT, "evidence") if os.path.realpath(REPO) == "/repo" else os.path.join(ROOT, "replays", "evidence-other-checkout")
+        ev["repo"] = os.path.realpath(REPO)
+        os.makedirs(evdir, exist_ok=True)
+        tmp = os.path.join(evdir, f".{self.prop}.{os.getpid()}.tmp")
         with open(tmp, "w") as f:
             json.dump(ev, f, indent=1, default=str)
-        os.replace(tmp, os.path.join(ROOT, "evidence", f"{self.prop}.json"))
+        os.replace(tmp, os.path.join(evdir, f"{self.prop}.json"))
         validate_evidence(ev)
 
 
